@@ -211,7 +211,13 @@ def check_parse_section(facts, ps, out):
                 continue
             bb, si = d
             if si == 'term':
-                out.add('FR-F4', PARSE_SECTION, 'return<-call', loc_of(ps.term(bb)['sp']), False,
+                tc = ps.term(bb)
+                cc = callee_of(tc)
+                if cc and cc.get('trait') == 'std::ops::FromResidual' and ps.dominates(rb, bb) and \
+                        'std::result::Result<std::convert::Infallible, std::io::Error>' in cc['full']:
+                    out.add('FR-F4', PARSE_SECTION, 'return<-?', loc_of(tc['sp']), True)
+                    continue
+                out.add('FR-F4', PARSE_SECTION, 'return<-call', loc_of(tc['sp']), False,
                         'parse_section returns the value of a call')
                 continue
             s = ps.blocks[bb]['st'][si]
@@ -297,7 +303,14 @@ def check_parse_first(facts, pf, out):
                 continue
             bb, si = d
             if si == 'term':
-                out.add('FR-F4', PARSE_FIRST, 'return<-call', loc_of(pf.term(bb)['sp']), False, 'returns the value of a call')
+                tc = pf.term(bb)
+                cc = callee_of(tc)
+                if cc and cc.get('trait') == 'std::ops::FromResidual' and pf.dominates(rb, bb) and \
+                        'std::result::Result<std::convert::Infallible, std::io::Error>' in cc['full']:
+                    out.add('FR-F4', PARSE_FIRST, 'return<-?', loc_of(tc['sp']), True)
+                    n += 1
+                    continue
+                out.add('FR-F4', PARSE_FIRST, 'return<-call', loc_of(tc['sp']), False, 'returns the value of a call')
                 continue
             s = pf.blocks[bb]['st'][si]
             rv = s['rv']
